@@ -5,6 +5,8 @@ From Coq Require Import List String Ascii Bool Arith NArith ZArith Lia Permutati
 From Yae Require Import Base.Sexp Model.Ty Gen.Generated Model.Num Model.Lexer Model.Literal Model.Val Model.Render
   Model.ValSpec Model.TySpec Proofs.TyInd Proofs.C17Proofs.
 Import ListNotations.
+Local Open Scope nat_scope.
+Local Open Scope list_scope.
 
 Local Arguments is_print : simpl never.
 Local Opaque is_print.
@@ -153,7 +155,8 @@ End BigDistinct.
 
 Section Quote.
   Local Open Scope N_scope.
-  Local Ltac Zify.zify_post_hook ::= Z.div_mod_to_equations.
+  Local Open Scope list_scope.
+  Local Ltac Zify.zify_post_hook ::= Z.to_euclidean_division_equations.
 
   Ltac nb :=
     repeat match goal with
@@ -214,17 +217,1127 @@ Section Quote.
   Proof. reflexivity. Qed.
 
   (* utf8_encode by range *)
+  Lemma enc_scalar c : (c < 55296 \/ 57343 < c) -> c <= 1114111 ->
+    (N.leb 55296 c && N.leb c 57343) || N.ltb 1114111 c = false.
+  Proof. intros H1 H2. nb; (reflexivity || lia). Qed.
+
+  Ltac enc_tac := unfold utf8_encode; cbv zeta; rewrite enc_scalar by lia; cbv beta iota; nb; try lia; reflexivity.
+
   Lemma enc1 c : c < 128 -> utf8_encode c = [c].
-  Proof. intros H. unfold utf8_encode. nb; simpl; nb; try lia; reflexivity. Qed.
+  Proof. intros H. enc_tac. Qed.
 
   Lemma enc2 c : 128 <= c -> c < 2048 -> utf8_encode c = [192 + c / 64; 128 + c mod 64].
-  Proof. intros H1 H2. unfold utf8_encode. nb; simpl; nb; try lia; reflexivity. Qed.
+  Proof. intros H1 H2. enc_tac. Qed.
 
   Lemma enc3 c : 2048 <= c -> c < 65536 -> (c < 55296 \/ 57343 < c) ->
     utf8_encode c = [224 + c / 4096; 128 + (c / 64) mod 64; 128 + c mod 64].
-  Proof. intros H1 H2 H3. unfold utf8_encode. nb; simpl; nb; try lia; reflexivity. Qed.
+  Proof. intros H1 H2 H3. enc_tac. Qed.
 
   Lemma enc4 c : 65536 <= c -> c <= 1114111 ->
     utf8_encode c = [240 + c / 262144; 128 + (c / 4096) mod 64; 128 + (c / 64) mod 64; 128 + c mod 64].
-  Proof. intros H1 H2. unfold utf8_encode. nb; simpl; nb; try lia; reflexivity. Qed.
+  Proof. intros H1 H2. enc_tac. Qed.
+
+  Ltac nb1 :=
+    match goal with
+    | |- context [N.eqb ?a ?b] => destruct (N.eqb_spec a b)
+    | |- context [N.ltb ?a ?b] => destruct (N.ltb_spec a b)
+    | |- context [N.leb ?a ?b] => destruct (N.leb_spec a b)
+    end; cbn [andb orb]; cbv beta iota; try lia.
+
+  (* a decoding step either rejects one byte (>= 128) or reads a canonical encoding of a scalar value *)
+  Lemma decode_spec a0 ar r w : utf8_decode (a0 :: ar) = (r, w) ->
+    (w = 1%nat /\ r = 65533 /\ 128 <= a0) \/
+    (utf8_encode r = firstn w (a0 :: ar) /\ List.length (firstn w (a0 :: ar)) = w /\ w = width a0 /\
+     (a0 < 128 -> r = a0) /\ (w = 1%nat -> r <> 65533)).
+  Proof.
+    unfold utf8_decode, cont.
+    destruct ar as [|a1 [|a2 [|a3 ar]]]; repeat nb1;
+      (intros Hdec; injection Hdec as <- <-;
+       first [ left; split; [reflexivity|split; [reflexivity|lia]]
+             | right; split; [|split; [reflexivity|split; [unfold width; repeat nb1; reflexivity|split; intros; lia]]];
+               first [rewrite enc1 by lia | rewrite enc2 by lia | rewrite enc3 by lia | rewrite enc4 by lia];
+               cbn [firstn]; repeat f_equal; lia ]).
+  Qed.
+
+  Lemma firstn_width_app (l rest : list N) w : List.length l = w -> firstn w (l ++ rest) = l /\ skipn w (l ++ rest) = rest.
+  Proof.
+    intros <-. split.
+    - rewrite firstn_app, Nat.sub_diag, firstn_all. simpl. apply app_nil_r.
+    - rewrite skipn_app, Nat.sub_diag, skipn_all. reflexivity.
+  Qed.
+
+  (* the decoder undoes one encoding step, whatever follows *)
+  Lemma dec_step_ok a0 ar r w rest : utf8_decode (a0 :: ar) = (r, w) ->
+    dec_step (stepf (r, w, a0) ++ rest) = Some (firstn w (a0 :: ar), rest).
+  Proof.
+    intros Hdec. apply decode_spec in Hdec.
+    destruct Hdec as [[Hw [Hr Ha]]|[Henc [Hlen [Hw [Hlow Hnot]]]]].
+    - subst w r. cbn [stepf Nat.eqb andb N.eqb Pos.eqb hex2 app dec_step firstn].
+      rewrite unhex2_hex2. reflexivity.
+    - assert (Nat.eqb w 1 && N.eqb r 65533 = false) as Hc.
+      { destruct (Nat.eqb_spec w 1) as [E|E]; [|reflexivity].
+        simpl. apply N.eqb_neq. auto. }
+      unfold stepf. rewrite Hc. rewrite <- Henc. unfold escape_rune.
+      destruct (N.eqb_spec r 34) as [E34|N34].
+      { subst r. reflexivity. }
+      destruct (N.eqb_spec r 92) as [E92|N92].
+      { subst r. reflexivity. }
+      cbn [orb].
+      destruct (is_print r).
+      { rewrite Henc.
+        assert (a0 <> 34 /\ a0 <> 92) as [Ha1 Ha2].
+        { destruct (N.ltb_spec a0 128) as [L|L]; [rewrite <- (Hlow L); auto|lia]. }
+        assert (exists t, firstn w (a0 :: ar) = a0 :: t) as [t Et].
+        { rewrite Hw. unfold width. repeat nb1; cbn [firstn]; eexists; reflexivity. }
+        destruct (firstn_width_app (firstn w (a0 :: ar)) rest w Hlen) as [F1 F2].
+        rewrite Et in *. cbn [app dec_step].
+        destruct (N.eqb_spec a0 34); [congruence|]. destruct (N.eqb_spec a0 92); [congruence|].
+        rewrite <- Hw. cbn [app] in F1, F2. rewrite F1, F2. reflexivity. }
+      destruct (N.eqb_spec r 7); [subst r; reflexivity|].
+      destruct (N.eqb_spec r 8); [subst r; reflexivity|].
+      destruct (N.eqb_spec r 12); [subst r; reflexivity|].
+      destruct (N.eqb_spec r 10); [subst r; reflexivity|].
+      destruct (N.eqb_spec r 13); [subst r; reflexivity|].
+      destruct (N.eqb_spec r 9); [subst r; reflexivity|].
+      destruct (N.eqb_spec r 11); [subst r; reflexivity|].
+      destruct (N.ltb r 32 || N.eqb r 127) eqn:Ectl.
+      { assert (r < 128) as Hr128.
+        { apply orb_true_iff in Ectl. destruct Ectl as [E|E]; [apply N.ltb_lt in E; lia|apply N.eqb_eq in E; lia]. }
+        cbn [hex2 app dec_step N.eqb Pos.eqb]. rewrite unhex2_hex2, enc1 by assumption. reflexivity. }
+      destruct (N.ltb r 65536).
+      + cbn [hex4 hex2 app dec_step N.eqb Pos.eqb]. rewrite unhex4_hex4. reflexivity.
+      + cbn [hex8 hex4 hex2 app dec_step N.eqb Pos.eqb]. unfold unhex8. rewrite !unhex4_hex4.
+        replace (r / 65536 * 65536 + r mod 65536) with r by lia. reflexivity.
+  Qed.
+
+  Lemma decode_width_pos a0 ar r w : utf8_decode (a0 :: ar) = (r, w) -> (1 <= w)%nat.
+  Proof.
+    intros E. apply decode_spec in E. destruct E as [[-> _]|[_ [_ [-> _]]]]; [lia|].
+    unfold width. repeat nb1; lia.
+  Qed.
+
+  Lemma decode_all_fuel : forall f1 f2 l, (List.length l <= f1)%nat -> (List.length l <= f2)%nat ->
+    decode_all f1 l = decode_all f2 l.
+  Proof.
+    induction f1 as [|f1 IH]; intros f2 l H1 H2.
+    - destruct l; [|simpl in H1; lia]. destruct f2; reflexivity.
+    - destruct l as [|a0 ar]; [destruct f2; reflexivity|].
+      destruct f2 as [|f2]; [simpl in H2; lia|].
+      cbn [decode_all]. destruct (utf8_decode (a0 :: ar)) as [r w] eqn:E. f_equal.
+      pose proof (decode_width_pos _ _ _ _ E) as Hw.
+      apply IH; rewrite skipn_length; cbn [List.length] in *; lia.
+  Qed.
+
+  Definition body (s : list N) : list N := flat_map stepf (runes_of s).
+
+  Lemma body_cons a0 ar r w : utf8_decode (a0 :: ar) = (r, w) ->
+    body (a0 :: ar) = stepf (r, w, a0) ++ body (skipn w (a0 :: ar)).
+  Proof.
+    intros E. unfold body, runes_of, len. cbn [List.length decode_all]. rewrite E. cbn [flat_map].
+    f_equal. f_equal. pose proof (decode_width_pos _ _ _ _ E) as Hw.
+    apply decode_all_fuel; rewrite ?skipn_length; cbn [List.length]. all: lia.
+  Qed.
+
+  Lemma body_nil_inv b : [34] = body b ++ [34] -> b = [].
+  Proof.
+    destruct b as [|b0 br]; [reflexivity|]. intros H. exfalso.
+    destruct (utf8_decode (b0 :: br)) as [r w] eqn:E.
+    rewrite (body_cons _ _ _ _ E), <- app_assoc in H.
+    apply (f_equal dec_step) in H. rewrite (dec_step_ok _ _ _ _ _ E) in H. discriminate H.
+  Qed.
+
+  Lemma body_inj : forall n a, (List.length a <= n)%nat -> forall b, body a ++ [34] = body b ++ [34] -> a = b.
+  Proof.
+    induction n as [|n IH]; intros a Hn b H.
+    - destruct a; [|simpl in Hn; lia]. symmetry. apply body_nil_inv. exact H.
+    - destruct a as [|a0 ar]; [symmetry; apply body_nil_inv; exact H|].
+      destruct b as [|b0 br]; [apply body_nil_inv; symmetry; exact H|].
+      destruct (utf8_decode (a0 :: ar)) as [r w] eqn:Ea.
+      destruct (utf8_decode (b0 :: br)) as [r' w'] eqn:Eb.
+      rewrite (body_cons _ _ _ _ Ea), (body_cons _ _ _ _ Eb), <- !app_assoc in H.
+      apply (f_equal dec_step) in H.
+      rewrite (dec_step_ok _ _ _ _ _ Ea), (dec_step_ok _ _ _ _ _ Eb) in H.
+      injection H as H1 H2.
+      pose proof (decode_width_pos _ _ _ _ Ea) as Hw.
+      apply IH in H2; [|rewrite skipn_length; cbn [List.length] in *; lia].
+      rewrite <- (firstn_skipn w (a0 :: ar)), <- (firstn_skipn w' (b0 :: br)). congruence.
+  Qed.
+
+  Lemma quote_injective : forall a b, quote a = quote b -> a = b.
+  Proof.
+    intros a b H. rewrite !quote_stepf in H. injection H as H.
+    eapply body_inj; [apply Nat.le_refl|exact H].
+  Qed.
 End Quote.
+
+(* ------------------------------------------------------------------------------------------------ *)
+(* Extra hypotheses of the partial variants, as boolean functions                                    *)
+(* ------------------------------------------------------------------------------------------------ *)
+
+(* no function type anywhere inside *)
+Fixpoint no_fun_ty (t : ty) : bool :=
+  match t with
+  | TFun _ _ _ => false
+  | TList e | TMaybe e => no_fun_ty e
+  | TMap k v => no_fun_ty k && no_fun_ty v
+  | TTuple l => forallb no_fun_ty l
+  | TObj fs => forallb (fun f => no_fun_ty (snd f)) fs
+  | _ => true
+  end.
+
+(* every function value inside carries a well-formed type ([val_ok] does not ask for it) *)
+Fixpoint funs_wf (v : val) : bool :=
+  match v with
+  | VFun t _ _ => wf_ty t
+  | VList _ vs | VObj _ vs => forallb funs_wf vs
+  | VMap _ kvs => forallb (fun kv => funs_wf (snd kv)) kvs
+  | VMaybe _ (Some x) => funs_wf x
+  | _ => true
+  end.
+
+(* no function type inside the type of any optional inside *)
+Fixpoint maybe_fn_free (v : val) : bool :=
+  match v with
+  | VMaybe t o => no_fun_ty t && match o with Some x => maybe_fn_free x | None => true end
+  | VList _ vs | VObj _ vs => forallb maybe_fn_free vs
+  | VMap _ kvs => forallb (fun kv => maybe_fn_free (snd kv)) kvs
+  | _ => true
+  end.
+
+(* when both are times: if they print alike they are the same instant (false of the model for nanoseconds outside
+   [0, 10^9), see [eq_key_counterexample]) *)
+Definition times_separated (x y : val) : bool :=
+  match x, y with
+  | VTime s1 n1, VTime s2 n2 => implb (list_eqb (fmt_time s1 n1) (fmt_time s2 n2)) (Z.eqb s1 s2 && Z.eqb n1 n2)
+  | _, _ => true
+  end.
+
+Lemma fun_free_funs_wf : forall v, fun_free v = true -> funs_wf v = true.
+Proof.
+  induction v using val_ind'; simpl; intros Hf; try reflexivity; try discriminate; try (apply IHv; assumption).
+  - rewrite forallb_forall in *. rewrite Forall_forall in H. auto.
+  - rewrite forallb_forall in *. rewrite Forall_forall in H. auto.
+  - rewrite forallb_forall in *. rewrite Forall_forall in H. auto.
+Qed.
+
+(* ------------------------------------------------------------------------------------------------ *)
+(* Association lists on key text; positions of fields                                                *)
+(* ------------------------------------------------------------------------------------------------ *)
+
+Lemma nodup_keys_NoDup l : nodup_keys l = true -> NoDup l.
+Proof.
+  induction l as [|a r IH]; simpl; intros H; [constructor|].
+  apply andb_true_iff in H. destruct H as [Hn Hr]. constructor; [|auto].
+  intros Hin. apply negb_true_iff in Hn.
+  assert (existsb (list_eqb a) r = true) as He.
+  { apply existsb_exists. exists a. split; [assumption|apply list_eqb_refl]. }
+  congruence.
+Qed.
+
+Lemma kget_In {X} k (l : list (list N * X)) x : kget k l = Some x -> In (k, x) l.
+Proof.
+  induction l as [|[k' x'] r IH]; simpl; intros H; [discriminate|].
+  destruct (list_eqb k k') eqn:E.
+  - apply list_eqb_eq in E. left. congruence.
+  - right. auto.
+Qed.
+
+Lemma In_kget {X} k (l : list (list N * X)) x : NoDup (map fst l) -> In (k, x) l -> kget k l = Some x.
+Proof.
+  induction l as [|[k' x'] r IH]; simpl; intros Hnd Hin; [contradiction|].
+  inversion Hnd as [|? ? Hnotin Hnd']; subst.
+  destruct Hin as [E|Hin].
+  - inversion E; subst. rewrite list_eqb_refl. reflexivity.
+  - destruct (list_eqb k k') eqn:E.
+    + apply list_eqb_eq in E. subst. exfalso. apply Hnotin. apply (in_map fst) in Hin. exact Hin.
+    + auto.
+Qed.
+
+Lemma In_keys_kget {X} k (l : list (list N * X)) : In k (map fst l) -> exists x, kget k l = Some x.
+Proof.
+  induction l as [|[k' x'] r IH]; simpl; intros Hin; [contradiction|].
+  destruct (list_eqb k k') eqn:E; [eexists; reflexivity|].
+  destruct Hin as [E'|Hin]; [|auto]. subst. rewrite list_eqb_refl in E. discriminate.
+Qed.
+
+Lemma index_of_nth {X} n (l : list (string * X)) : forall i, index_of n l = Some i -> exists x, nth_error l i = Some (n, x).
+Proof.
+  induction l as [|[m x] r IH]; simpl; intros i H; [discriminate|].
+  destruct (String.eqb_spec n m) as [E|E].
+  - injection H as <-. subst. eexists; reflexivity.
+  - destruct (index_of n r) as [j|]; [|discriminate]. injection H as <-. simpl. apply IH. reflexivity.
+Qed.
+
+Lemma nth_index_of {X} n (l : list (string * X)) : forall i x,
+  NoDup (map fst l) -> nth_error l i = Some (n, x) -> index_of n l = Some i.
+Proof.
+  induction l as [|[m y] r IH]; intros [|i] x Hnd H; simpl in *; try discriminate.
+  - injection H as -> ->. rewrite String.eqb_refl. reflexivity.
+  - inversion Hnd as [|? ? Hnotin Hnd']; subst.
+    destruct (String.eqb_spec n m) as [E|E].
+    + subst. exfalso. apply Hnotin. apply nth_error_In in H. apply (in_map fst) in H. exact H.
+    + rewrite (IH i x Hnd' H). reflexivity.
+Qed.
+
+Lemma In_keys_index_of {X} n (l : list (string * X)) : In n (map fst l) -> exists i, index_of n l = Some i.
+Proof.
+  induction l as [|[m y] r IH]; simpl; intros Hin; [contradiction|].
+  destruct (String.eqb_spec n m) as [E|E]; [eexists; reflexivity|].
+  destruct Hin as [E'|Hin]; [congruence|]. destruct (IH Hin) as [i Hi]. rewrite Hi. eexists; reflexivity.
+Qed.
+
+Lemma nth_error_combine {X Y} (l1 : list X) : forall (l2 : list Y) i,
+  nth_error (combine l1 l2) i =
+  match nth_error l1 i, nth_error l2 i with Some a, Some b => Some (a, b) | _, _ => None end.
+Proof.
+  induction l1 as [|a r IH]; intros [|b s] [|i]; simpl; try reflexivity.
+  - destruct (nth_error r i); reflexivity.
+  - apply IH.
+Qed.
+
+(* ------------------------------------------------------------------------------------------------ *)
+(* Top-level copies of the nested fixpoints of [val_eqb] and [val_ok]                                *)
+(* ------------------------------------------------------------------------------------------------ *)
+
+Definition ok_fields : list (string * ty) -> list val -> bool :=
+  fix go (fs : list (string * ty)) (vs : list val) {struct vs} : bool :=
+    match fs, vs with
+    | (_, ft) :: fr, x :: r => val_ok x && ty_eqb (val_type x) ft && go fr r
+    | _, [] => true
+    | [], _ :: _ => false
+    end.
+
+Lemma val_ok_obj fs vs :
+  val_ok (VObj (TObj fs) vs) =
+  wf_ty (TObj fs) && slot_free (TObj fs) && (Nat.eqb (len fs) (len vs) && ok_fields fs vs).
+Proof. reflexivity. Qed.
+
+Lemma ok_fields_nth fs : forall vs, ok_fields fs vs = true ->
+  forall i f x, nth_error fs i = Some f -> nth_error vs i = Some x ->
+  val_ok x = true /\ ty_eqb (val_type x) (snd f) = true.
+Proof.
+  induction fs as [|[n ft] fr IH]; intros [|v r] H [|i] f x Hf Hx; simpl in *; try discriminate.
+  - injection Hf as <-. injection Hx as <-. apply andb_true_iff in H. destruct H as [H _].
+    apply andb_true_iff in H. exact H.
+  - apply andb_true_iff in H. destruct H as [_ H]. eapply IH; eauto.
+Qed.
+
+(* what [val_ok] says about the immediate components *)
+Lemma val_ok_list t vs : val_ok (VList t vs) = true ->
+  wf_ty t = true /\ Forall (fun x => val_ok x = true) vs.
+Proof.
+  simpl. intros H. apply andb_true_iff in H. destruct H as [H1 H2]. apply andb_true_iff in H1. destruct H1 as [H1 _].
+  split; [assumption|]. destruct t; try discriminate. apply Forall_forall. intros x Hx.
+  rewrite forallb_forall in H2. apply H2 in Hx. apply andb_true_iff in Hx. tauto.
+Qed.
+
+Lemma val_ok_map t kvs : val_ok (VMap t kvs) = true ->
+  wf_ty t = true /\ NoDup (map fst kvs) /\ Forall (fun kv => val_ok (snd kv) = true) kvs.
+Proof.
+  simpl. intros H. apply andb_true_iff in H. destruct H as [H1 H2]. apply andb_true_iff in H1. destruct H1 as [H1 H3].
+  apply andb_true_iff in H1. destruct H1 as [H1 _].
+  split; [assumption|]. split; [apply nodup_keys_NoDup; assumption|].
+  destruct t; try discriminate. apply Forall_forall. intros x Hx.
+  rewrite forallb_forall in H2. apply H2 in Hx. apply andb_true_iff in Hx. tauto.
+Qed.
+
+Lemma val_ok_obj_inv t vs : val_ok (VObj t vs) = true ->
+  exists fs, t = TObj fs /\ wf_ty t = true /\ NoDup (map fst fs) /\ List.length fs = List.length vs /\
+             ok_fields fs vs = true /\ Forall (fun x => val_ok x = true) vs.
+Proof.
+  intros H. destruct t; try (simpl in H; rewrite ?andb_false_r in H; discriminate H).
+  rewrite val_ok_obj in H. apply andb_true_iff in H. destruct H as [H1 H2].
+  apply andb_true_iff in H1. destruct H1 as [Hwf _]. apply andb_true_iff in H2. destruct H2 as [Hlen Hok].
+  apply Nat.eqb_eq in Hlen. unfold len in Hlen.
+  exists fs. split; [reflexivity|]. split; [assumption|]. split; [apply wf_obj in Hwf; tauto|].
+  split; [assumption|]. split; [assumption|].
+  apply Forall_forall. intros x Hx. apply In_nth_error in Hx. destruct Hx as [i Hi].
+  destruct (nth_error fs i) as [f|] eqn:Ef.
+  - eapply ok_fields_nth; eauto.
+  - apply nth_error_None in Ef. assert (i < List.length vs) by (apply nth_error_Some; congruence). lia.
+Qed.
+
+Lemma val_ok_maybe t x : val_ok (VMaybe t (Some x)) = true -> wf_ty t = true /\ val_ok x = true.
+Proof.
+  simpl. intros H. apply andb_true_iff in H. destruct H as [H1 H2]. apply andb_true_iff in H1. destruct H1 as [H1 _].
+  split; [assumption|]. destruct t; try discriminate. apply andb_true_iff in H2. tauto.
+Qed.
+
+Lemma val_ok_maybe_none t : val_ok (VMaybe t None) = true -> wf_ty t = true.
+Proof. simpl. intros H. apply andb_true_iff in H. destruct H as [H1 _]. apply andb_true_iff in H1. tauto. Qed.
+
+Section EqDefs.
+  Variable ops : numops.
+
+  Fixpoint eqb_vlist (xs ys : list val) {struct xs} : bool :=
+    match xs, ys with
+    | [], [] => true
+    | a :: r, b :: s => val_eqb ops a b && eqb_vlist r s
+    | _, _ => false
+    end.
+
+  Definition eqb_vmap (ky : list (list N * val)) : list (list N * val) -> bool :=
+    fix go (kx : list (list N * val)) : bool :=
+      match kx with
+      | [] => true
+      | (k, a) :: r => match kget k ky with Some b => val_eqb ops a b | None => false end && go r
+      end.
+
+  Definition eqb_vobj (fy : list (string * ty)) (ys : list val) : list (string * ty) -> list val -> bool :=
+    fix go (fx : list (string * ty)) (xs : list val) {struct xs} : bool :=
+      match fx, xs with
+      | (n, _) :: fr, a :: r =>
+          match index_of n fy with
+          | Some i => match nth_error ys i with Some b => val_eqb ops a b | None => false end
+          | None => false
+          end && go fr r
+      | _, [] => true
+      | [], _ :: _ => false
+      end.
+
+  Lemma val_eqb_list t xs t' ys : val_eqb ops (VList t xs) (VList t' ys) = ty_eqb t t' && eqb_vlist xs ys.
+  Proof. reflexivity. Qed.
+
+  Lemma val_eqb_map t kx t' ky :
+    val_eqb ops (VMap t kx) (VMap t' ky) = ty_eqb t t' && (Nat.eqb (len kx) (len ky) && eqb_vmap ky kx).
+  Proof. reflexivity. Qed.
+
+  Lemma val_eqb_obj fx xs fy ys :
+    val_eqb ops (VObj (TObj fx) xs) (VObj (TObj fy) ys) =
+    ty_eqb (TObj fx) (TObj fy) && (Nat.eqb (len xs) (len ys) && eqb_vobj fy ys fx xs).
+  Proof. reflexivity. Qed.
+
+  Lemma eqb_vlist_Forall2 xs : forall ys, eqb_vlist xs ys = true <-> Forall2 (fun a b => val_eqb ops a b = true) xs ys.
+  Proof.
+    induction xs as [|a r IH]; intros [|b s]; simpl; split; intros H; try discriminate; try constructor;
+      try solve [inversion H].
+    - apply andb_true_iff in H. tauto.
+    - apply andb_true_iff in H. apply IH. tauto.
+    - inversion H; subst. apply andb_true_iff. split; [assumption|apply IH; assumption].
+  Qed.
+
+  Lemma eqb_vmap_spec ky kx :
+    eqb_vmap ky kx = true <->
+    (forall k a, In (k, a) kx -> exists b, kget k ky = Some b /\ val_eqb ops a b = true).
+  Proof.
+    induction kx as [|[k a] r IH]; simpl; split; intros H.
+    - intros ? ? [].
+    - reflexivity.
+    - apply andb_true_iff in H. destruct H as [H1 H2]. intros k' a' [E|Hin].
+      + inversion E; subst. destruct (kget k' ky) as [b|]; [|discriminate]. eauto.
+      + apply IH; assumption.
+    - apply andb_true_iff. split.
+      + destruct (H k a (or_introl Logic.eq_refl)) as [b [Hb Hv]]. rewrite Hb. exact Hv.
+      + apply IH. intros k' a' Hin. apply H. right. exact Hin.
+  Qed.
+
+  Lemma eqb_vobj_spec fy ys fx : forall xs,
+    eqb_vobj fy ys fx xs = true <->
+    (List.length xs <= List.length fx /\
+     forall i f a, nth_error fx i = Some f -> nth_error xs i = Some a ->
+       exists j b, index_of (fst f) fy = Some j /\ nth_error ys j = Some b /\ val_eqb ops a b = true).
+  Proof.
+    induction fx as [|[n t] fr IH]; intros [|a r]; simpl; split; intros H; try discriminate; try reflexivity.
+    - split; [lia|]. intros [|i] ? ? ? ?; discriminate.
+    - destruct H as [H _]. lia.
+    - split; [lia|]. intros [|i] ? ? ? ?; discriminate.
+    - apply andb_true_iff in H. destruct H as [H1 H2]. apply IH in H2. destruct H2 as [Hlen Hall].
+      split; [lia|]. intros [|i] f a' Hf Ha; simpl in *.
+      + injection Hf as <-. injection Ha as <-. simpl.
+        destruct (index_of n fy) as [j|]; [|discriminate]. destruct (nth_error ys j) as [b|] eqn:Eb; [|discriminate].
+        eauto.
+      + eapply Hall; eauto.
+    - destruct H as [Hlen Hall]. apply andb_true_iff. split.
+      + destruct (Hall 0%nat (n, t) a Logic.eq_refl Logic.eq_refl) as [j [b [Hj [Hb Hv]]]]. simpl in Hj.
+        rewrite Hj, Hb. exact Hv.
+      + apply IH. split; [lia|]. intros i f a' Hf Ha. apply (Hall (S i) f a'); assumption.
+  Qed.
+End EqDefs.
+
+(* ------------------------------------------------------------------------------------------------ *)
+(* Sorting by text                                                                                   *)
+(* ------------------------------------------------------------------------------------------------ *)
+
+Lemma bytes_leb_total a : forall b, bytes_leb a b = true \/ bytes_leb b a = true.
+Proof.
+  induction a as [|x r IH]; intros [|y s]; simpl; auto.
+  destruct (N.ltb_spec x y); auto. destruct (N.ltb_spec y x); auto.
+Qed.
+
+Lemma bytes_leb_antisym a : forall b, bytes_leb a b = true -> bytes_leb b a = true -> a = b.
+Proof.
+  induction a as [|x r IH]; intros [|y s]; simpl; intros H1 H2; try discriminate; try reflexivity.
+  destruct (N.ltb_spec x y); destruct (N.ltb_spec y x); try discriminate; try lia.
+  assert (x = y) by lia. subst. f_equal. auto.
+Qed.
+
+Lemma bytes_leb_trans a : forall b c, bytes_leb a b = true -> bytes_leb b c = true -> bytes_leb a c = true.
+Proof.
+  induction a as [|x r IH]; intros [|y s] [|z u]; simpl; intros H1 H2; try discriminate; try reflexivity.
+  destruct (N.ltb_spec x y); destruct (N.ltb_spec y z); destruct (N.ltb_spec x z); try reflexivity; try lia;
+    destruct (N.ltb_spec y x); try discriminate; try lia;
+    destruct (N.ltb_spec z y); try discriminate; try lia;
+    destruct (N.ltb_spec z x); try lia.
+  eapply IH; eauto.
+Qed.
+
+Section SortBy.
+  Context {X : Type}.
+  Variable key : X -> list N.
+  Definition ble (a b : X) : Prop := bytes_leb (key a) (key b) = true.
+
+  Lemma insert_by_perm x (l : list X) : Permutation (insert_by key x l) (x :: l).
+  Proof.
+    induction l as [|y r IH]; simpl.
+    - apply Permutation_refl.
+    - destruct (bytes_leb (key x) (key y)).
+      + apply Permutation_refl.
+      + eapply perm_trans; [apply perm_skip; exact IH|apply perm_swap].
+  Qed.
+
+  Lemma sort_by_perm (l : list X) : Permutation (sort_by key l) l.
+  Proof.
+    induction l as [|x r IH]; simpl.
+    - apply perm_nil.
+    - eapply perm_trans; [apply insert_by_perm|]. apply perm_skip. exact IH.
+  Qed.
+
+  Lemma insert_by_sorted x (l : list X) : StronglySorted ble l -> StronglySorted ble (insert_by key x l).
+  Proof.
+    induction l as [|y r IH]; simpl; intros Hs.
+    - constructor; constructor.
+    - apply StronglySorted_inv in Hs. destruct Hs as [Hr Hall].
+      destruct (bytes_leb (key x) (key y)) eqn:E.
+      + constructor.
+        * constructor; assumption.
+        * constructor; [exact E|].
+          eapply Forall_impl; [|exact Hall]. intros z Hz. unfold ble in *. eapply bytes_leb_trans; eauto.
+      + constructor; [auto|].
+        eapply Permutation_Forall; [apply Permutation_sym; apply insert_by_perm|].
+        constructor; [|assumption].
+        unfold ble. destruct (bytes_leb_total (key x) (key y)) as [H|H]; [congruence|exact H].
+  Qed.
+
+  Lemma sort_by_sorted (l : list X) : StronglySorted ble (sort_by key l).
+  Proof.
+    induction l as [|x r IH]; simpl.
+    - constructor.
+    - apply insert_by_sorted. exact IH.
+  Qed.
+
+  Lemma sorted_by_perm_eq : forall l1 l2 : list X,
+    StronglySorted ble l1 -> StronglySorted ble l2 -> NoDup (map key l1) -> Permutation l1 l2 -> l1 = l2.
+  Proof.
+    induction l1 as [|a r1 IH]; intros l2 S1 S2 Hnd Hp.
+    - apply Permutation_nil in Hp. subst. reflexivity.
+    - destruct l2 as [|b r2].
+      { apply Permutation_sym in Hp. apply Permutation_nil in Hp. discriminate. }
+      apply StronglySorted_inv in S1. destruct S1 as [S1 F1].
+      apply StronglySorted_inv in S2. destruct S2 as [S2 F2].
+      simpl in Hnd. inversion Hnd as [|? ? Hnotin Hnd']; subst.
+      assert (a = b) as Eab.
+      { assert (In a (b :: r2)) as Ha by (eapply Permutation_in; [exact Hp|left; reflexivity]).
+        assert (In b (a :: r1)) as Hb
+            by (eapply Permutation_in; [apply Permutation_sym; exact Hp|left; reflexivity]).
+        destruct Ha as [Ha|Ha]; [congruence|]. destruct Hb as [Hb|Hb]; [congruence|].
+        exfalso. apply Hnotin.
+        rewrite Forall_forall in F1, F2.
+        assert (key a = key b) as E.
+        { apply bytes_leb_antisym; [apply (F1 _ Hb)|apply (F2 _ Ha)]. }
+        rewrite E. apply in_map. exact Hb. }
+      subst b. f_equal. apply IH; try assumption.
+      eapply Permutation_cons_inv; eauto.
+  Qed.
+
+  Lemma sort_by_perm_eq (l1 l2 : list X) : NoDup (map key l1) -> Permutation l1 l2 -> sort_by key l1 = sort_by key l2.
+  Proof.
+    intros Hnd Hp. apply sorted_by_perm_eq; try apply sort_by_sorted.
+    - eapply Permutation_NoDup; [|exact Hnd]. apply Permutation_map. apply Permutation_sym. apply sort_by_perm.
+    - eapply perm_trans; [apply sort_by_perm|]. eapply perm_trans; [exact Hp|].
+      apply Permutation_sym. apply sort_by_perm.
+  Qed.
+End SortBy.
+
+Lemma NoDup_map_inj {X Y} (f : X -> Y) l : (forall a b, f a = f b -> a = b) -> NoDup l -> NoDup (map f l).
+Proof.
+  intros Hf. induction 1 as [|a r Hnotin Hnd IH]; simpl; constructor; [|assumption].
+  intros Hin. apply in_map_iff in Hin. destruct Hin as [b [E Hb]]. apply Hf in E. subst. contradiction.
+Qed.
+
+Lemma map_fst_combine {X Y} (l1 : list X) : forall (l2 : list Y), List.length l1 = List.length l2 -> map fst (combine l1 l2) = l1.
+Proof.
+  induction l1 as [|a r IH]; intros [|b s] H; simpl in *; try discriminate; try reflexivity.
+  f_equal. apply IH. lia.
+Qed.
+
+Lemma combine_map_r {X Y Z} (f : Y -> Z) (l1 : list X) : forall (l2 : list Y),
+  combine l1 (map f l2) = map (fun p => (fst p, f (snd p))) (combine l1 l2).
+Proof.
+  induction l1 as [|a r IH]; intros [|b s]; simpl; try reflexivity. f_equal. apply IH.
+Qed.
+
+(* ------------------------------------------------------------------------------------------------ *)
+(* ty_eqb implies equal canonical forms when no function type occurs                                 *)
+(* ------------------------------------------------------------------------------------------------ *)
+
+Definition canonf (f : string * ty) : string * ty := (fst f, canon (snd f)).
+
+Lemma canon_obj fs : canon (TObj fs) = TObj (sort_kv (map canonf fs)).
+Proof. reflexivity. Qed.
+
+Lemma map_fst_canonf fs : map fst (map canonf fs) = map fst fs.
+Proof. rewrite map_map. apply map_ext. intros [n t]; reflexivity. Qed.
+
+Definition canon_stmt (x : ty) : Prop :=
+  forall y, wf_ty x = true -> wf_ty y = true -> no_fun_ty x = true -> ty_eqb x y = true -> canon x = canon y.
+
+Lemma eqb_list_canon l1 : Forall canon_stmt l1 ->
+  forall l2, Forall (fun t => wf_ty t = true) l1 -> Forall (fun t => wf_ty t = true) l2 ->
+  forallb no_fun_ty l1 = true -> eqb_list l1 l2 = true -> map canon l1 = map canon l2.
+Proof.
+  induction 1 as [|a r1 Ha Hr IH]; intros [|b r2] Hw1 Hw2 Hnf HH; simpl in *; try discriminate; try reflexivity.
+  inversion Hw1 as [|? ? Wa Wr1]; subst. inversion Hw2 as [|? ? Wb Wr2]; subst.
+  apply andb_true_iff in HH. destruct HH as [HH1 HH2]. apply andb_true_iff in Hnf. destruct Hnf as [Hn1 Hn2].
+  f_equal; [apply Ha; assumption|apply IH; assumption].
+Qed.
+
+Lemma canon_eq : forall x, canon_stmt x.
+Proof.
+  unfold canon_stmt.
+  induction x using ty_ind'; intros y Hwx Hwy Hnf Heq; destruct y; try (simpl in Heq; discriminate Heq);
+    try reflexivity.
+  - simpl in Heq. apply String.eqb_eq in Heq. congruence.
+  - rewrite ty_eqb_tuple in Heq. apply wf_tuple in Hwx. apply wf_tuple in Hwy. simpl. f_equal.
+    apply eqb_list_canon; assumption.
+  - simpl in *. f_equal. auto.
+  - apply wf_map in Hwx. apply wf_map in Hwy. destruct Hwx as [_ [Hk1 Hv1]]. destruct Hwy as [_ [Hk2 Hv2]].
+    simpl in *. apply andb_true_iff in Heq. destruct Heq as [E1 E2]. apply andb_true_iff in Hnf. destruct Hnf as [N1 N2].
+    f_equal; auto.
+  - apply wf_obj in Hwx. apply wf_obj in Hwy. destruct Hwx as [Hn1 Hw1]. destruct Hwy as [Hn2 Hw2].
+    rewrite Forall_forall in H. apply ty_eqb_obj_spec in Heq. destruct Heq as [Hlen Hrel].
+    simpl in Hnf. rewrite forallb_forall in Hnf.
+    rewrite !canon_obj. f_equal. apply sort_kv_perm_eq.
+    { rewrite map_fst_canonf. assumption. }
+    apply NoDup_Permutation_bis.
+    + eapply NoDup_map_inv. rewrite map_fst_canonf. eassumption.
+    + rewrite !map_length. lia.
+    + intros [n t'] Hin. apply in_map_iff in Hin. destruct Hin as [[n0 t] [E Hin]].
+      unfold canonf in E; simpl in E. injection E as En Et. subst n0.
+      destruct (Hrel n t Hin) as [t2 [Ha He]].
+      apply (H (n, t) Hin t2) in He; simpl; eauto using assoc_In.
+      * simpl in He. apply in_map_iff. exists (n, t2). split; [|eauto using assoc_In].
+        unfold canonf; simpl. congruence.
+      * apply (Hnf (n, t) Hin).
+  - simpl in Hnf. discriminate Hnf.
+  - simpl in *. f_equal. auto.
+Qed.
+
+(* ------------------------------------------------------------------------------------------------ *)
+(* Main section                                                                                      *)
+(* ------------------------------------------------------------------------------------------------ *)
+
+Section C18.
+  Variable ops : numops.
+
+  (* same as in Props/C18.v *)
+  Definition num_refl (l : list N) : Prop := forall b, In b l -> num_eq ops b b = true.
+  Definition num_sym : Prop := forall a b, num_eq ops a b = num_eq ops b a.
+  Definition num_separated (l1 l2 : list N) : Prop :=
+    forall a b, In a l1 -> In b l2 -> (num_eq ops a b = true <-> fmt_num ops a = fmt_num ops b).
+
+  (* ---- eq_key ---- *)
+
+  Lemma eq_key_partial : forall x y kx ky,
+    is_primitive (val_type x) = true -> ty_eqb (val_type x) (val_type y) = true ->
+    num_separated (nums_of x) (nums_of y) ->
+    times_separated x y = true ->
+    key_of ops x = ([], OVal kx) -> key_of ops y = ([], OVal ky) ->
+    (val_eqb ops x y = true <-> kx = ky).
+  Proof.
+    intros x y kx ky _ Hty Hsep Htime Hkx Hky.
+    destruct x; cbn [key_of] in Hkx; try discriminate Hkx;
+      destruct y; cbn [key_of] in Hky; try discriminate Hky;
+      cbn [val_type ty_eqb] in Hty; try discriminate Hty;
+      unfold ret in Hkx, Hky; injection Hkx as <-; injection Hky as <-;
+      cbn [val_eqb val_type ty_eqb andb].
+    - apply Hsep; simpl; auto.
+    - destruct b, b0; split; intros H; try reflexivity; try discriminate H; vm_compute in H; discriminate H.
+    - rewrite list_eqb_eq. split; [congruence|apply quote_injective].
+    - split; intros H.
+      + apply andb_true_iff in H. destruct H as [H1 H2]. apply Z.eqb_eq in H1. apply Z.eqb_eq in H2. congruence.
+      + apply quote_injective in H. cbn [times_separated] in Htime. rewrite H, list_eqb_refl in Htime. exact Htime.
+  Qed.
+
+  Lemma eq_key_notime : forall x y kx ky,
+    is_primitive (val_type x) = true -> ty_eqb (val_type x) (val_type y) = true ->
+    num_separated (nums_of x) (nums_of y) ->
+    val_type x <> TTime ->
+    key_of ops x = ([], OVal kx) -> key_of ops y = ([], OVal ky) ->
+    (val_eqb ops x y = true <-> kx = ky).
+  Proof.
+    intros x y kx ky Hp Hty Hsep Hnt. apply eq_key_partial; try assumption.
+    destruct x; try reflexivity. exfalso. apply Hnt. reflexivity.
+  Qed.
+
+  (* the statement without [times_separated] is false: nanoseconds are not confined to [0, 10^9) in the model *)
+  Lemma eq_key_counterexample :
+    let x := VTime 0 100000000 in let y := VTime 0 1000000000 in
+    is_primitive (val_type x) = true /\ ty_eqb (val_type x) (val_type y) = true /\
+    num_separated (nums_of x) (nums_of y) /\
+    key_of ops x = key_of ops y /\ val_eqb ops x y = false.
+  Proof.
+    cbv zeta. split; [reflexivity|]. split; [reflexivity|]. split; [intros a b []|].
+    split; vm_compute; reflexivity.
+  Qed.
+
+  (* ---- eq_refl ---- *)
+
+  Lemma eqb_vlist_refl vs : Forall (fun v => val_eqb ops v v = true) vs -> eqb_vlist ops vs vs = true.
+  Proof. induction 1 as [|a r Ha Hr IH]; simpl; [reflexivity|]. rewrite Ha, IH. reflexivity. Qed.
+
+  Lemma Forall_sub {X} (P Q R S : X -> Prop) l :
+    Forall (fun x => P x -> Q x -> R x -> S x) l -> Forall P l -> Forall Q l -> Forall R l -> Forall S l.
+  Proof.
+    intros H HP HQ HR. rewrite Forall_forall in *. auto.
+  Qed.
+
+  Lemma eq_refl : forall v, val_ok v = true -> fun_free v = true -> num_refl (nums_of v) -> val_eqb ops v v = true.
+  Proof.
+    unfold num_refl.
+    induction v using val_ind'; intros Hok Hff Hnum.
+    - cbn [val_eqb val_type ty_eqb andb]. apply Hnum. left. reflexivity.
+    - cbn [val_eqb val_type ty_eqb andb]. apply eqb_reflx.
+    - cbn [val_eqb val_type ty_eqb andb]. apply list_eqb_refl.
+    - cbn [val_eqb val_type ty_eqb andb]. rewrite !Z.eqb_refl. reflexivity.
+    - (* list *)
+      apply val_ok_list in Hok. destruct Hok as [Hwf Hoks].
+      rewrite val_eqb_list, (C17Proofs.eq_refl _ Hwf). cbn [andb]. apply eqb_vlist_refl.
+      cbn [fun_free nums_of] in Hff, Hnum. rewrite forallb_forall in Hff.
+      rewrite Forall_forall in *. intros x Hx. apply H; auto.
+      intros b Hb. apply Hnum. apply in_flat_map. eauto.
+    - (* map *)
+      apply val_ok_map in Hok. destruct Hok as [Hwf [Hnd Hoks]].
+      rewrite val_eqb_map, (C17Proofs.eq_refl _ Hwf), Nat.eqb_refl. cbn [andb].
+      apply eqb_vmap_spec. intros k a Hin. exists a. split; [apply In_kget; assumption|].
+      cbn [fun_free nums_of] in Hff, Hnum. rewrite forallb_forall in Hff.
+      rewrite Forall_forall in *. apply (H (k, a) Hin); [apply (Hoks (k, a) Hin)|apply (Hff (k, a) Hin)|].
+      intros b Hb. apply Hnum. apply in_flat_map. exists (k, a). auto.
+    - (* object *)
+      apply val_ok_obj_inv in Hok. destruct Hok as [fs [-> [Hwf [Hnd [Hlen [Hokf Hoks]]]]]].
+      rewrite val_eqb_obj, (C17Proofs.eq_refl _ Hwf), Nat.eqb_refl. cbn [andb].
+      apply eqb_vobj_spec. split; [lia|]. intros i [n ft] a Hf Ha. exists i, a. cbn [fst].
+      split; [eapply nth_index_of; eauto|]. split; [assumption|].
+      cbn [fun_free nums_of] in Hff, Hnum. rewrite forallb_forall in Hff.
+      rewrite Forall_forall in *. apply nth_error_In in Ha. apply H; auto.
+      intros b Hb. apply Hnum. apply in_flat_map. eauto.
+    - apply val_ok_maybe_none in Hok. cbn [val_eqb val_type]. rewrite (C17Proofs.eq_refl _ Hok). reflexivity.
+    - apply val_ok_maybe in Hok. destruct Hok as [Hwf Hx]. cbn [val_eqb val_type].
+      rewrite (C17Proofs.eq_refl _ Hwf). cbn [andb]. apply IHv; assumption.
+    - discriminate Hff.
+  Qed.
+
+  (* ---- eq_sym ---- *)
+
+  Lemma kv_flip {X} (R : X -> X -> Prop) (kx ky : list (list N * X)) :
+    NoDup (map fst kx) -> NoDup (map fst ky) -> List.length kx = List.length ky ->
+    (forall k a, In (k, a) kx -> exists b, kget k ky = Some b /\ R a b) ->
+    forall k b, In (k, b) ky -> exists a, kget k kx = Some a /\ R a b.
+  Proof.
+    intros Hn1 Hn2 Hlen H k b Hin.
+    assert (incl (map fst kx) (map fst ky)) as Hincl.
+    { intros k' Hk'. apply in_map_iff in Hk'. destruct Hk' as [[k2 a] [E Hin2]]. simpl in E; subst.
+      destruct (H _ _ Hin2) as [b' [Hb' _]]. apply kget_In in Hb'. apply (in_map fst) in Hb'. exact Hb'. }
+    assert (In k (map fst kx)) as Hk.
+    { apply (@NoDup_length_incl _ (map fst kx) (map fst ky) Hn1).
+      - rewrite !map_length. lia.
+      - exact Hincl.
+      - apply (in_map fst) in Hin. exact Hin. }
+    destruct (In_keys_kget _ _ Hk) as [a Ha]. exists a. split; [assumption|].
+    destruct (H _ _ (kget_In _ _ _ Ha)) as [b' [Hb' Hr]].
+    rewrite (In_kget _ _ _ Hn2 Hin) in Hb'. injection Hb' as <-. exact Hr.
+  Qed.
+
+  Lemma Forall2_flip_in {X} (R R' : X -> X -> Prop) xs : forall ys,
+    Forall2 R xs ys -> (forall a b, In a xs -> In b ys -> R a b -> R' b a) -> Forall2 R' ys xs.
+  Proof.
+    induction xs as [|a r IH]; intros ys H Himp; inversion H; subst; constructor.
+    - apply Himp; simpl; auto.
+    - apply IH; [assumption|]. intros a' b' Ha Hb. apply Himp; simpl; auto.
+  Qed.
+
+  Definition sym_stmt (x : val) : Prop :=
+    forall y, val_ok x = true -> val_ok y = true -> funs_wf x = true -> funs_wf y = true ->
+              val_eqb ops x y = true -> val_eqb ops y x = true.
+
+  Ltac mismatch H := cbn [val_eqb] in H; rewrite ?andb_false_r in H; discriminate H.
+
+  Lemma eqb_sym_imp : num_sym -> forall x, sym_stmt x.
+  Proof.
+    intros Hsym. unfold sym_stmt.
+    induction x using val_ind'; intros y Hox Hoy Hfx Hfy Heq; destruct y; try (mismatch Heq).
+    - cbn [val_eqb val_type ty_eqb andb] in *. rewrite <- Hsym. exact Heq.
+    - cbn [val_eqb val_type ty_eqb andb] in *. destruct b, b0; auto.
+    - cbn [val_eqb val_type ty_eqb andb] in *. rewrite list_eqb_sym. exact Heq.
+    - cbn [val_eqb val_type ty_eqb andb] in *. rewrite (Z.eqb_sym sec s), (Z.eqb_sym nsec n). exact Heq.
+    - (* list *)
+      apply val_ok_list in Hox. apply val_ok_list in Hoy. destruct Hox as [Hwx Hox]. destruct Hoy as [Hwy Hoy].
+      rewrite val_eqb_list in *. apply andb_true_iff in Heq. destruct Heq as [Ht Hl].
+      apply andb_true_iff. split; [apply C17Proofs.eqb_sym_imp; assumption|].
+      apply eqb_vlist_Forall2. apply eqb_vlist_Forall2 in Hl.
+      cbn [funs_wf] in Hfx, Hfy. rewrite forallb_forall in Hfx, Hfy. rewrite Forall_forall in *.
+      eapply Forall2_flip_in; [exact Hl|]. intros a b Ha Hb Hab. apply H; auto.
+    - (* map *)
+      apply val_ok_map in Hox. apply val_ok_map in Hoy.
+      destruct Hox as [Hwx [Hnx Hox]]. destruct Hoy as [Hwy [Hny Hoy]].
+      rewrite val_eqb_map in *. apply andb_true_iff in Heq. destruct Heq as [Ht Hl].
+      apply andb_true_iff in Hl. destruct Hl as [Hlen Hm]. apply Nat.eqb_eq in Hlen. unfold len in *.
+      apply andb_true_iff. split; [apply C17Proofs.eqb_sym_imp; assumption|].
+      apply andb_true_iff. split; [apply Nat.eqb_eq; auto|].
+      apply eqb_vmap_spec. rewrite eqb_vmap_spec in Hm.
+      cbn [funs_wf] in Hfx, Hfy. rewrite forallb_forall in Hfx, Hfy. rewrite Forall_forall in *.
+      intros k b Hin.
+      destruct (kv_flip (fun a b => val_eqb ops a b = true) _ _ Hnx Hny Hlen Hm k b Hin) as [a [Ha Hab]].
+      exists a. split; [assumption|]. apply kget_In in Ha.
+      apply (H (k, a) Ha); try assumption.
+      + apply (Hox (k, a) Ha).
+      + apply (Hoy (k, b) Hin).
+      + apply (Hfx (k, a) Ha).
+      + apply (Hfy (k, b) Hin).
+    - (* object *)
+      apply val_ok_obj_inv in Hox. destruct Hox as [fx [-> [Hwx [Hnx [Hlx [Hokx Hox]]]]]].
+      apply val_ok_obj_inv in Hoy. destruct Hoy as [fy [-> [Hwy [Hny [Hly [Hoky Hoy]]]]]].
+      rewrite val_eqb_obj in *. apply andb_true_iff in Heq. destruct Heq as [Ht Hl].
+      apply andb_true_iff in Hl. destruct Hl as [Hlen Hm]. apply Nat.eqb_eq in Hlen. unfold len in *.
+      assert (ty_eqb (TObj fy) (TObj fx) = true) as Ht' by (apply C17Proofs.eqb_sym_imp; assumption).
+      apply andb_true_iff. split; [assumption|].
+      apply andb_true_iff. split; [apply Nat.eqb_eq; auto|].
+      apply eqb_vobj_spec. rewrite eqb_vobj_spec in Hm. destruct Hm as [_ Hm].
+      split; [lia|]. intros j [m tt] b Hfj Hbj. cbn [fst].
+      apply ty_eqb_obj_spec in Ht'. destruct Ht' as [_ Hrel].
+      destruct (Hrel m tt (nth_error_In _ _ Hfj)) as [t' [Hassoc _]].
+      apply assoc_In_keys in Hassoc. destruct (In_keys_index_of _ _ Hassoc) as [i Hi].
+      destruct (index_of_nth _ _ _ Hi) as [ti Hfi].
+      assert (i < List.length vs) as Hilt by (rewrite <- Hlx; apply nth_error_Some; congruence).
+      destruct (nth_error vs i) as [a|] eqn:Ea; [|apply nth_error_None in Ea; lia].
+      destruct (Hm i (m, ti) a Hfi Ea) as [j' [b' [Hj' [Hb' Hab]]]]. cbn [fst] in Hj'.
+      rewrite (nth_index_of _ _ _ _ Hny Hfj) in Hj'. injection Hj' as <-.
+      rewrite Hbj in Hb'. injection Hb' as <-.
+      exists i, a. split; [assumption|]. split; [exact Ea|].
+      cbn [funs_wf] in Hfx, Hfy. rewrite forallb_forall in Hfx, Hfy. rewrite Forall_forall in *.
+      apply nth_error_In in Ea. apply nth_error_In in Hbj. apply H; auto.
+    - (* none *)
+      destruct v; [mismatch Heq|].
+      apply val_ok_maybe_none in Hox. apply val_ok_maybe_none in Hoy.
+      cbn [val_eqb val_type] in *. rewrite andb_true_r in *. apply C17Proofs.eqb_sym_imp; assumption.
+    - (* some *)
+      destruct v; [|mismatch Heq].
+      apply val_ok_maybe in Hox. apply val_ok_maybe in Hoy. destruct Hox as [Hwx Hox]. destruct Hoy as [Hwy Hoy].
+      cbn [val_eqb val_type] in *. apply andb_true_iff in Heq. destruct Heq as [Ht Hv].
+      apply andb_true_iff. split; [apply C17Proofs.eqb_sym_imp; assumption|].
+      cbn [funs_wf] in Hfx, Hfy. apply IHx; assumption.
+    - (* function values *)
+      cbn [val_eqb val_type funs_wf] in *. apply andb_true_iff in Heq. destruct Heq as [Ht Hn].
+      apply andb_true_iff. split; [apply C17Proofs.eqb_sym_imp; assumption|].
+      rewrite String.eqb_sym. exact Hn.
+  Qed.
+
+  Lemma eq_sym_partial : forall x y, val_ok x = true -> val_ok y = true -> funs_wf x = true -> funs_wf y = true ->
+    num_sym -> val_eqb ops x y = val_eqb ops y x.
+  Proof.
+    intros x y Hx Hy Fx Fy Hsym.
+    destruct (val_eqb ops x y) eqn:E1; destruct (val_eqb ops y x) eqn:E2; try reflexivity.
+    - apply (eqb_sym_imp Hsym) in E1; try assumption. congruence.
+    - apply (eqb_sym_imp Hsym) in E2; try assumption. congruence.
+  Qed.
+
+  Lemma eq_sym_fun_free : forall x y, val_ok x = true -> val_ok y = true -> fun_free x = true -> fun_free y = true ->
+    num_sym -> val_eqb ops x y = val_eqb ops y x.
+  Proof. intros x y Hx Hy Fx Fy. apply eq_sym_partial; auto using fun_free_funs_wf. Qed.
+
+  (* [val_ok] does not ask the type carried by a function value to be well formed, and [ty_eqb] is not symmetric
+     on object types with repeated field names *)
+  Lemma eq_sym_counterexample :
+    let x := VFun (TFun "f" [TObj [("a", TNum); ("a", TNum)]] TNum) "f" false in
+    let y := VFun (TFun "f" [TObj [("a", TNum); ("b", TStr)]] TNum) "f" false in
+    val_ok x = true /\ val_ok y = true /\ val_eqb ops x y = true /\ val_eqb ops y x = false.
+  Proof. cbv zeta. repeat split; vm_compute; reflexivity. Qed.
+
+  (* ---- rendering: unfolding lemmas ---- *)
+
+  Definition rk (kvs : list (list N * val)) : list (list N * list N) :=
+    map (fun kv => (fst kv, render ops (snd kv))) kvs.
+
+  Definition render_kvs (l : list (list N * list N)) : list N :=
+    match l with
+    | [] => bytes_of_string "[:]"
+    | _ => [91%N] ++ join_bytes (bytes_of_string ", ")
+             (map (fun kr => fst kr ++ bytes_of_string ": " ++ snd kr) (sort_by fst l)) ++ [93%N]
+    end.
+
+  Lemma render_map t kvs : render ops (VMap t kvs) = render_kvs (rk kvs).
+  Proof. destruct kvs; reflexivity. Qed.
+
+  Definition named (fs : list (string * ty)) (vs : list val) : list (string * list N) :=
+    combine (map fst fs) (map (render ops) vs).
+
+  Definition render_named (l : list (string * list N)) : list N :=
+    [123%N] ++ join_bytes (bytes_of_string ", ")
+      (map (fun nr => bytes_of_string (fst nr) ++ bytes_of_string ": " ++ snd nr)
+         (sort_by (fun nr => bytes_of_string (fst nr)) l)) ++ [125%N].
+
+  Lemma render_obj fs vs : render ops (VObj (TObj fs) vs) = render_named (named fs vs).
+  Proof. reflexivity. Qed.
+
+  Lemma render_list t vs :
+    render ops (VList t vs) = [91%N] ++ join_bytes (bytes_of_string ", ") (map (render ops) vs) ++ [93%N].
+  Proof. reflexivity. Qed.
+
+  Definition render_opt (e : ty) (o : option val) : list N :=
+    match o with
+    | None => bytes_of_string "Nothing#" ++ ty_bytes (canon e) ++ bytes_of_string "()"
+    | Some x => bytes_of_string "Just#" ++ ty_bytes (canon e) ++ [40%N] ++ render ops x ++ [41%N]
+    end.
+
+  Lemma render_maybe e o : render ops (VMaybe (TMaybe e) o) = render_opt e o.
+  Proof. destruct o; reflexivity. Qed.
+
+  Lemma render_kvs_perm l l' : NoDup (map fst l) -> Permutation l l' -> render_kvs l = render_kvs l'.
+  Proof.
+    intros Hnd Hp. destruct l as [|a r], l' as [|b s].
+    - reflexivity.
+    - apply Permutation_nil in Hp. discriminate.
+    - apply Permutation_sym in Hp. apply Permutation_nil in Hp. discriminate.
+    - unfold render_kvs. rewrite (sort_by_perm_eq fst _ _ Hnd Hp). reflexivity.
+  Qed.
+
+  Lemma render_named_perm l l' : NoDup (map fst l) -> Permutation l l' -> render_named l = render_named l'.
+  Proof.
+    intros Hnd Hp. unfold render_named.
+    rewrite (sort_by_perm_eq (fun nr : string * list N => bytes_of_string (fst nr)) l l'); [reflexivity| |exact Hp].
+    rewrite <- (map_map fst bytes_of_string). apply NoDup_map_inj; [apply bytes_of_string_inj|exact Hnd].
+  Qed.
+
+  Lemma map_fst_rk kvs : map fst (rk kvs) = map fst kvs.
+  Proof. unfold rk. rewrite map_map. apply map_ext. reflexivity. Qed.
+
+  Lemma map_fst_named fs vs : List.length fs = List.length vs -> map fst (named fs vs) = map fst fs.
+  Proof. intros H. unfold named. apply map_fst_combine. rewrite !map_length. exact H. Qed.
+
+  Lemma val_ok_maybe_ty t o : val_ok (VMaybe t o) = true -> exists e, t = TMaybe e.
+  Proof.
+    simpl. intros H. apply andb_true_iff in H. destruct H as [_ H].
+    destruct t; try discriminate H. eexists; reflexivity.
+  Qed.
+
+  Lemma Forall2_in_impl {X Y} (R R' : X -> Y -> Prop) xs : forall ys,
+    Forall2 R xs ys -> (forall a b, In a xs -> In b ys -> R a b -> R' a b) -> Forall2 R' xs ys.
+  Proof.
+    induction xs as [|a r IH]; intros ys H Himp; inversion H; subst; constructor.
+    - apply Himp; simpl; auto.
+    - apply IH; [assumption|]. intros a' b' Ha Hb. apply Himp; simpl; auto.
+  Qed.
+
+  Lemma Forall2_map_eq {X Y Z} (f : X -> Z) (g : Y -> Z) xs : forall ys,
+    Forall2 (fun a b => f a = g b) xs ys -> map f xs = map g ys.
+  Proof. induction xs as [|a r IH]; intros ys H; inversion H; subst; simpl; [reflexivity|]. f_equal; auto. Qed.
+
+  Lemma maybe_canon e e' :
+    wf_ty (TMaybe e) = true -> wf_ty (TMaybe e') = true -> no_fun_ty (TMaybe e) = true ->
+    ty_eqb (TMaybe e) (TMaybe e') = true -> canon e = canon e'.
+  Proof. simpl. intros. apply canon_eq; assumption. Qed.
+
+  (* ---- eq_render ---- *)
+
+  Definition render_stmt (x : val) : Prop :=
+    forall y, val_ok x = true -> val_ok y = true -> fun_free x = true -> maybe_fn_free x = true ->
+              num_separated (nums_of x) (nums_of y) -> val_eqb ops x y = true -> render ops x = render ops y.
+
+  Lemma eq_render_all : forall x, render_stmt x.
+  Proof.
+    unfold render_stmt, num_separated.
+    induction x using val_ind'; intros y Hox Hoy Hff Hmf Hsep Heq; destruct y; try (mismatch Heq).
+    - cbn [val_eqb val_type ty_eqb andb render] in *. apply Hsep; simpl; auto.
+    - cbn [val_eqb val_type ty_eqb andb render] in *. apply eqb_prop in Heq. subst. reflexivity.
+    - cbn [val_eqb val_type ty_eqb andb render] in *. apply list_eqb_eq in Heq. subst. reflexivity.
+    - cbn [val_eqb val_type ty_eqb andb render] in *. apply andb_true_iff in Heq. destruct Heq as [E1 E2].
+      apply Z.eqb_eq in E1. apply Z.eqb_eq in E2. subst. reflexivity.
+    - (* list *)
+      apply val_ok_list in Hox. apply val_ok_list in Hoy. destruct Hox as [_ Hox]. destruct Hoy as [_ Hoy].
+      rewrite val_eqb_list in Heq. apply andb_true_iff in Heq. destruct Heq as [_ Hl].
+      apply eqb_vlist_Forall2 in Hl. rewrite !render_list.
+      assert (map (render ops) vs = map (render ops) vs0) as Em; [|rewrite Em; reflexivity].
+      apply Forall2_map_eq.
+      cbn [fun_free maybe_fn_free nums_of] in Hff, Hmf, Hsep. rewrite forallb_forall in Hff, Hmf.
+      rewrite Forall_forall in *.
+      eapply Forall2_in_impl; [exact Hl|]. intros a b Ha Hb Hab. apply H; auto.
+      intros p q Hp Hq. apply Hsep; apply in_flat_map; eauto.
+    - (* map *)
+      apply val_ok_map in Hox. apply val_ok_map in Hoy.
+      destruct Hox as [_ [Hnx Hox]]. destruct Hoy as [_ [Hny Hoy]].
+      rewrite val_eqb_map in Heq. apply andb_true_iff in Heq. destruct Heq as [_ Hl].
+      apply andb_true_iff in Hl. destruct Hl as [Hlen Hm]. apply Nat.eqb_eq in Hlen. unfold len in *.
+      rewrite eqb_vmap_spec in Hm.
+      cbn [fun_free maybe_fn_free nums_of] in Hff, Hmf, Hsep. rewrite forallb_forall in Hff, Hmf.
+      rewrite Forall_forall in *.
+      rewrite !render_map. apply render_kvs_perm; [rewrite map_fst_rk; assumption|].
+      apply NoDup_Permutation_bis.
+      + apply (NoDup_map_inv fst). rewrite map_fst_rk. assumption.
+      + unfold rk. rewrite !map_length. lia.
+      + intros [k s] Hin. unfold rk in Hin. apply in_map_iff in Hin. destruct Hin as [[k' a] [E Hin]].
+        cbn [fst snd] in E. injection E as -> <-.
+        destruct (Hm k a Hin) as [b [Hb Hab]]. apply kget_In in Hb.
+        assert (render ops a = render ops b) as Er.
+        { apply (H (k, a) Hin); try assumption.
+          - apply (Hox (k, a) Hin).
+          - apply (Hoy (k, b) Hb).
+          - apply (Hff (k, a) Hin).
+          - apply (Hmf (k, a) Hin).
+          - intros p q Hp Hq. apply Hsep; apply in_flat_map; [exists (k, a)|exists (k, b)]; auto. }
+        rewrite Er. unfold rk. apply in_map_iff. exists (k, b). auto.
+    - (* object *)
+      apply val_ok_obj_inv in Hox. destruct Hox as [fx [-> [_ [Hnx [Hlx [_ Hox]]]]]].
+      apply val_ok_obj_inv in Hoy. destruct Hoy as [fy [-> [_ [Hny [Hly [_ Hoy]]]]]].
+      rewrite val_eqb_obj in Heq. apply andb_true_iff in Heq. destruct Heq as [Ht Hl].
+      apply andb_true_iff in Hl. destruct Hl as [Hlen Hm]. apply Nat.eqb_eq in Hlen. unfold len in *.
+      rewrite eqb_vobj_spec in Hm. destruct Hm as [_ Hm].
+      cbn [fun_free maybe_fn_free nums_of] in Hff, Hmf, Hsep. rewrite forallb_forall in Hff, Hmf.
+      rewrite Forall_forall in *.
+      rewrite !render_obj. apply render_named_perm; [rewrite map_fst_named; assumption|].
+      apply NoDup_Permutation_bis.
+      + apply (NoDup_map_inv fst). rewrite map_fst_named; assumption.
+      + unfold named. rewrite !combine_length, !map_length. lia.
+      + intros [n s] Hin. apply In_nth_error in Hin. destruct Hin as [i Hi].
+        unfold named in Hi. rewrite nth_error_combine, !nth_error_map in Hi.
+        destruct (nth_error fx i) as [[n0 t0]|] eqn:Ef; [|discriminate Hi].
+        destruct (nth_error vs i) as [a|] eqn:Ea; [|discriminate Hi].
+        cbn [option_map fst] in Hi. injection Hi as -> <-.
+        destruct (Hm i (n, t0) a Ef Ea) as [j [b [Hj [Hb Hab]]]]. cbn [fst] in Hj.
+        destruct (index_of_nth _ _ _ Hj) as [tj Hfj].
+        assert (render ops a = render ops b) as Er.
+        { apply nth_error_In in Ea. pose proof (nth_error_In _ _ Hb) as Hb'. apply H; auto.
+          intros p q Hp Hq. apply Hsep; apply in_flat_map; eauto. }
+        rewrite Er. apply (nth_error_In _ j). unfold named.
+        rewrite nth_error_combine, !nth_error_map, Hfj, Hb. reflexivity.
+    - (* none *)
+      destruct v; [mismatch Heq|].
+      destruct (val_ok_maybe_ty _ _ Hox) as [e ->]. destruct (val_ok_maybe_ty _ _ Hoy) as [e' ->].
+      apply val_ok_maybe_none in Hox. apply val_ok_maybe_none in Hoy.
+      cbn [val_eqb val_type] in Heq. rewrite andb_true_r in Heq. cbn [maybe_fn_free] in Hmf. rewrite andb_true_r in Hmf.
+      rewrite !render_maybe. unfold render_opt. rewrite (maybe_canon e e'); auto.
+    - (* some *)
+      destruct v; [|mismatch Heq].
+      destruct (val_ok_maybe_ty _ _ Hox) as [e ->]. destruct (val_ok_maybe_ty _ _ Hoy) as [e' ->].
+      apply val_ok_maybe in Hox. apply val_ok_maybe in Hoy. destruct Hox as [Hwx Hox]. destruct Hoy as [Hwy Hoy].
+      cbn [val_eqb val_type] in Heq. apply andb_true_iff in Heq. destruct Heq as [Ht Hv].
+      cbn [maybe_fn_free fun_free nums_of] in Hmf, Hff, Hsep. apply andb_true_iff in Hmf. destruct Hmf as [Hnf Hmf].
+      rewrite !render_maybe. unfold render_opt. rewrite (maybe_canon e e'); auto.
+      rewrite (IHx v); auto.
+    - discriminate Hff.
+  Qed.
+
+  Lemma eq_render_partial : forall x y,
+    val_ok x = true -> val_ok y = true -> fun_free x = true -> maybe_fn_free x = true ->
+    num_separated (nums_of x) (nums_of y) ->
+    val_eqb ops x y = true -> render ops x = render ops y.
+  Proof. intros x y. apply eq_render_all. Qed.
+
+  (* [ty_eqb] ignores function names, rendering prints them *)
+  Lemma eq_render_counterexample :
+    let x := VMaybe (TMaybe (TFun "f" [] TNum)) None in
+    let y := VMaybe (TMaybe (TFun "g" [] TNum)) None in
+    val_ok x = true /\ val_ok y = true /\ fun_free x = true /\ num_separated (nums_of x) (nums_of y) /\
+    val_eqb ops x y = true /\ render ops x <> render ops y.
+  Proof.
+    cbv zeta. split; [reflexivity|]. split; [reflexivity|]. split; [reflexivity|]. split; [intros a b []|].
+    split; [reflexivity|]. vm_compute. discriminate.
+  Qed.
+
+  (* ---- render_canonical ---- *)
+
+  Lemma In_combine_r_ex {X Y} (l1 : list X) (l2 : list Y) b :
+    List.length l1 = List.length l2 -> In b l2 -> exists a, In (a, b) (combine l1 l2).
+  Proof.
+    intros Hlen Hin. apply In_nth_error in Hin. destruct Hin as [i Hi].
+    assert (i < List.length l1) as Hlt by (rewrite Hlen; apply nth_error_Some; congruence).
+    destruct (nth_error l1 i) as [a|] eqn:Ea; [|apply nth_error_None in Ea; lia].
+    exists a. apply (nth_error_In _ i). rewrite nth_error_combine, Ea, Hi. reflexivity.
+  Qed.
+
+  Lemma Forall2_len {X Y} (R : X -> Y -> Prop) xs : forall ys, Forall2 R xs ys -> List.length xs = List.length ys.
+  Proof. induction xs as [|a r IH]; intros ys H; inversion H; subst; simpl; auto. Qed.
+
+  Definition canonical_stmt (x : val) : Prop :=
+    forall y, val_ok x = true -> val_ok y = true -> maybe_fn_free x = true -> same_contents x y ->
+              render ops x = render ops y.
+
+  Lemma render_canonical_all : forall x, canonical_stmt x.
+  Proof.
+    unfold canonical_stmt.
+    induction x using val_ind'; intros y Hox Hoy Hmf Hsc; inversion Hsc; subst; try reflexivity.
+    - (* list *)
+      apply val_ok_list in Hox. apply val_ok_list in Hoy. destruct Hox as [_ Hox]. destruct Hoy as [_ Hoy].
+      rewrite !render_list.
+      assert (map (render ops) vs = map (render ops) ys) as Em; [|rewrite Em; reflexivity].
+      apply Forall2_map_eq.
+      cbn [maybe_fn_free] in Hmf. rewrite forallb_forall in Hmf. rewrite Forall_forall in *.
+      match goal with Hf : Forall2 same_contents _ _ |- _ => eapply Forall2_in_impl; [exact Hf|] end.
+      intros a b Ha Hb Hab. apply H; auto.
+    - (* map *)
+      apply val_ok_map in Hox. apply val_ok_map in Hoy.
+      destruct Hox as [_ [Hnx Hox]]. destruct Hoy as [_ [Hny Hoy]].
+      cbn [maybe_fn_free] in Hmf. rewrite forallb_forall in Hmf. rewrite Forall_forall in *.
+      match goal with Hp : Permutation ?l ky |- _ => rename Hp into Hperm; set (kz := l) in * end.
+      assert (rk kvs = rk kz) as Ek.
+      { unfold rk. apply Forall2_map_eq.
+        match goal with Hf : Forall2 _ kvs kz |- _ => eapply Forall2_in_impl; [exact Hf|] end.
+        intros a b Ha Hb [Hk Hab]. cbv beta. rewrite Hk. f_equal.
+        apply (H a Ha); auto.
+        apply Hoy. eapply Permutation_in; eauto. }
+      rewrite !render_map. apply render_kvs_perm; [rewrite map_fst_rk; assumption|].
+      rewrite Ek. unfold rk. apply Permutation_map. exact Hperm.
+    - (* object *)
+      apply val_ok_obj_inv in Hox. destruct Hox as [fx' [Efx [_ [Hnx [Hlx [_ Hox]]]]]]. injection Efx as <-.
+      apply val_ok_obj_inv in Hoy. destruct Hoy as [fy' [Efy [_ [Hny [Hly [_ Hoy]]]]]]. injection Efy as <-.
+      cbn [maybe_fn_free] in Hmf. rewrite forallb_forall in Hmf. rewrite Forall_forall in *.
+      match goal with Hp : Permutation (combine _ ?l) (combine _ ys) |- _ => rename Hp into Hperm; set (yz := l) in * end.
+      match goal with Hf : Forall2 same_contents vs yz |- _ => rename Hf into Hf2 end.
+      assert (List.length yz = List.length vs) as Hlz by (symmetry; eapply Forall2_len; eauto).
+      assert (map (render ops) vs = map (render ops) yz) as Em.
+      { apply Forall2_map_eq. eapply Forall2_in_impl; [exact Hf2|]. intros a b Ha Hb Hab.
+        apply H; auto. apply Hoy.
+        destruct (In_combine_r_ex (map fst fx) yz b) as [n Hn]; [rewrite map_length; lia|assumption|].
+        eapply in_combine_r. eapply Permutation_in; [exact Hperm|exact Hn]. }
+      rewrite !render_obj. apply render_named_perm; [rewrite map_fst_named; assumption|].
+      unfold named. rewrite Em, !combine_map_r. apply Permutation_map. exact Hperm.
+    - (* some *)
+      destruct (val_ok_maybe_ty _ _ Hox) as [e ->]. destruct (val_ok_maybe_ty _ _ Hoy) as [e' ->].
+      apply val_ok_maybe in Hox. apply val_ok_maybe in Hoy. destruct Hox as [Hwx Hox]. destruct Hoy as [Hwy Hoy].
+      cbn [maybe_fn_free] in Hmf. apply andb_true_iff in Hmf. destruct Hmf as [Hnf Hmf].
+      rewrite !render_maybe. unfold render_opt. rewrite (maybe_canon e e'); auto.
+      rewrite (IHx y0); auto.
+  Qed.
+
+  Lemma render_canonical_partial : forall x y,
+    val_ok x = true -> val_ok y = true -> maybe_fn_free x = true -> same_contents x y ->
+    render ops x = render ops y.
+  Proof. intros x y. apply render_canonical_all. Qed.
+
+  Lemma render_canonical_counterexample :
+    let fv := VFun (TFun "f" [] TNum) "h" false in
+    let x := VMaybe (TMaybe (TFun "f" [] TNum)) (Some fv) in
+    let y := VMaybe (TMaybe (TFun "g" [] TNum)) (Some fv) in
+    val_ok x = true /\ val_ok y = true /\ same_contents x y /\ render ops x <> render ops y.
+  Proof.
+    cbv zeta. split; [reflexivity|]. split; [reflexivity|]. split.
+    - apply sc_maybe; [reflexivity|apply sc_refl].
+    - vm_compute. discriminate.
+  Qed.
+End C18.
+
+Print Assumptions quote_injective.
+Print Assumptions big_distinct.
+Print Assumptions eq_refl.
+Print Assumptions eq_key_partial.
+Print Assumptions eq_sym_partial.
+Print Assumptions eq_render_partial.
+Print Assumptions render_canonical_partial.
